@@ -649,6 +649,49 @@ func genEcase(r *rng.R, rg *rig, sameName bool) ecaseJSON {
 
 // ---------------------------------------------------------------- output
 
+// freshInstanceRace: the first nG requests of a FRESH stack are released at the same moment; returns the tag each
+// request was stamped with and, for each forwarded request sent through the same stack again, whether it was refused.
+func freshInstanceRace(name string, nG int) ([]string, []bool) {
+	m, _ := mheader.NewStack(name)
+	start := make(chan struct{})
+	vias := make([]string, nG)
+	var wg sync.WaitGroup
+	for g := 0; g < nG; g++ {
+		wg.Add(1)
+		go func(g int) {
+			defer wg.Done()
+			req, _ := http.NewRequest(http.MethodGet, "http://example.com/", http.NoBody)
+			req.RemoteAddr = "10.0.0.1:1234"
+			<-start
+			if err := m.ModifyRequest(req); err == nil {
+				vias[g] = req.Header.Get("Via")
+			}
+		}(g)
+	}
+	close(start)
+	wg.Wait()
+	var tags []string
+	var refused []bool
+	for _, v := range vias {
+		tags = append(tags, strings.TrimPrefix(v, "1.1 "))
+		req, _ := http.NewRequest(http.MethodGet, "http://example.com/", http.NoBody)
+		req.RemoteAddr = "10.0.0.1:1234"
+		req.Header.Set("Via", v)
+		err := m.ModifyRequest(req)
+		st, _ := mheader.ErrorStatus(err)
+		refused = append(refused, err != nil && st == 400)
+	}
+	return tags, refused
+}
+
+func coqBools(bs []bool) string {
+	var parts []string
+	for _, x := range bs {
+		parts = append(parts, coqfmt.Bool(x))
+	}
+	return coqfmt.List("bool", parts)
+}
+
 // stackTags builds n stacks (even indices: httpspec.NewStack, odd: header.NewViaModifier) and returns the tag of each.
 func stackTags(name string, n int) []string {
 	var tags []string
@@ -707,6 +750,7 @@ type meta struct {
 	LineHist       map[string]int `json:"via_field_lines_hist"`
 	ProtoExhaust   int            `json:"proto_versions_exhaustive"`
 	StackTags      int            `json:"stack_tags_observed"`
+	FreshInstances int            `json:"fresh_instances_raced"`
 	E2ECases       int            `json:"e2e_cases"`
 	E2ERoutes      map[string]int `json:"e2e_routes"`
 	E2EStatus      map[string]int `json:"e2e_status"`
@@ -744,7 +788,24 @@ func main() {
 		if err := json.Unmarshal(data, &rp); err != nil {
 			panic(err)
 		}
-		if rp.Kind == "stacks" {
+		if rp.Kind == "fresh-instance" {
+			var st struct {
+				Name string `json:"name"`
+			}
+			json.Unmarshal(data, &st)
+			var fc []string
+			var fj []any
+			for i := 0; i < 300; i++ { // the race needs many fresh instances to show
+				tags, refused := freshInstanceRace(st.Name, 8)
+				fc = append(fc, fmt.Sprintf("{| f_name := %s; f_tags := %s; f_loopback_refused := %s |}", coqfmt.Str(st.Name), coqfmt.StrList(tags), coqBools(refused)))
+				fj = append(fj, map[string]any{"kind": "fresh-instance", "name": st.Name, "n": 8, "_obs": map[string]any{"tags": tags, "loopback_refused": refused}})
+			}
+			writeShard(*out, "fcases", 0, "fcase", "fcase_model_ok", "fcase_prop_ok", fc, noB)
+			writeJSONL(*out, "fcases.jsonl", fj)
+			m.Shards = []string{"fcases_000.v"}
+			m.ShardSize = len(fc)
+			fmt.Printf("replay fresh-instance: 300 fresh stacks named %q, 8 concurrent first requests each\n", st.Name)
+		} else if rp.Kind == "stacks" {
 			var st struct {
 				Name string `json:"name"`
 				N    int    `json:"n"`
@@ -867,6 +928,27 @@ func main() {
 	writeShard(*out, "ucases", 0, "ucase", "ucase_model_ok", "ucase_prop_ok", uc, noB)
 	m.Shards = append(m.Shards, "ucases_000.v")
 	writeJSONL(*out, "ucases.jsonl", uj)
+
+	// ---- 1c. the first requests of fresh instances, concurrent, each forwarded request looped back
+	nFresh := 300
+	if *tier == "thorough" {
+		nFresh = 5000
+	}
+	var fc []string
+	var fj []any
+	for i := 0; i < nFresh; i++ {
+		name := namePool[i%4]
+		tags, refused := freshInstanceRace(name, 8)
+		m.FreshInstances++
+		fc = append(fc, fmt.Sprintf("{| f_name := %s; f_tags := %s; f_loopback_refused := %s |}", coqfmt.Str(name), coqfmt.StrList(tags), coqBools(refused)))
+		fj = append(fj, map[string]any{"kind": "fresh-instance", "name": name, "n": 8, "_obs": map[string]any{"tags": tags, "loopback_refused": refused}})
+	}
+	for i := 0; i*m.ShardSize < len(fc); i++ {
+		hi := min((i+1)*m.ShardSize, len(fc))
+		writeShard(*out, "fcases", i, "fcase", "fcase_model_ok", "fcase_prop_ok", fc[i*m.ShardSize:hi], noB)
+		m.Shards = append(m.Shards, fmt.Sprintf("fcases_%03d.v", i))
+	}
+	writeJSONL(*out, "fcases.jsonl", fj)
 
 	// ---- 2. end to end
 	var ec []string
